@@ -462,7 +462,10 @@ def wrp (P : Prims) : Nat → String → Json → Json → Json → Json → Bs 
     | some .dir, .obj rkvs =>
       let cekO : Option Json :=
         match cek.get? "k" with
-        | some _ => some cek
+        | some ck =>      -- a content key fixed by an earlier recipient: only the very same key may join (fix F32)
+          (match jwk.get? "k" with
+           | some jk => if Json.equal ck jk then some cek else none
+           | none => none)
         | none => (match cek, jwk with
             | .obj c, .obj k => some (.obj (updateKV c k))
             | _, _ => none)
